@@ -53,10 +53,10 @@ fn replay_c08(part: &str, input: &Value) -> Option<Result<Result<(), Viol>, Stri
 }
 
 fn run_c09(ctx: &RunCtx) -> Vec<PartOutcome> {
-    mbchecks::run_spec(ctx, &mbchecks::C09, 8000, 150000)
+    mbchecks::run_c09(ctx)
 }
 fn replay_c09(part: &str, input: &Value) -> Option<Result<Result<(), Viol>, String>> {
-    mbchecks::replay_spec(&mbchecks::C09, part, input)
+    mbchecks::replay_c09(part, input)
 }
 
 fn run_c10(ctx: &RunCtx) -> Vec<PartOutcome> {
@@ -188,7 +188,7 @@ pub fn all() -> Vec<CheckDef> {
             id: "C09",
             run: run_c09,
             replay: replay_c09,
-            rule: "actor/victim rank pairs (multi-flag ranks), KICK lists with absent/own names and comments, TOPIC set/clear/read on +-t, INVITE of present/absent/unknown users on +-i followed by JOINs; oracle = rank rules of the statement, audience of announcements, one-shot admission; non-trivial = KICK of/by ranked members, TOPIC/INVITE refused for rank, or an invitation that admits; distinct by those tags",
+            rule: "actor/victim rank pairs (multi-flag ranks), KICK lists with absent/own names and comments, TOPIC set/clear/read on +-t, INVITE of present/absent/unknown users on +-i followed by JOINs; oracle = rank rules of the statement, audience of announcements, one-shot admission; non-trivial = KICK of/by ranked members, TOPIC/INVITE refused for rank, or an invitation that admits; distinct by those tags; part long_texts = topics and kick comments of 0..1900 bytes (dense around the advertised 1000, multi-byte at every phase): every copy of an announcement is the same prefix of what was sent, and later TOPIC / LIST / JOIN replies show exactly the announced topic; non-trivial there = a text of at least 990 bytes",
             level: "exploration",
             assumptions: SIM_ASSUMPTIONS,
         },
